@@ -12,8 +12,10 @@ import (
 	"os/exec"
 	"runtime"
 	"sort"
+	"strconv"
 	"sync"
 	"sync/atomic"
+	"syscall"
 	"time"
 
 	bip39 "github.com/islishude/bip39"
@@ -216,6 +218,14 @@ func main() {
 	shard := flag.Int("shard", 0, "shard index (process-level sharding)")
 	nshard := flag.Int("nshard", 0, "number of shards; 0 = decide automatically")
 	flag.Parse()
+	// a size computation gone wrong in the code under test must fail fast instead of eating the
+	// machine: cap the address space of every worker process (the sandbox itself has no limit)
+	gb := uint64(48)
+	if v, err := strconv.ParseUint(os.Getenv("VERIF_AS_LIMIT_GB"), 10, 64); err == nil && v > 0 {
+		gb = v
+	}
+	lim := syscall.Rlimit{Cur: gb << 30, Max: gb << 30}
+	_ = syscall.Setrlimit(syscall.RLIMIT_AS, &lim)
 
 	if h, ok := subcommands[*prop]; ok {
 		os.Exit(h(flag.Args()))
